@@ -289,41 +289,37 @@ def run(ctx, rep):
         rep.check(isinstance(r, Bits) and r.b[:5] == Bits.inp("ID", 0, 5).b and all(x == 0 for x in r.b[5:]), "R11.2", "R11.2|ib|lane_fn",
                   "IB lane = id[4:0]", ibl, "IB lane evaluates to %s" % vkey(r))
     obc = DW + "ob::ObDataWordValidator::check"
-    if obc in f.fns:
-        out = ev.collect_ifs(obc, [Slice("W", 0, 10), Bits.inp("ACTIVE", 0, 32)])
-        cs = [ckey(c["cond"]) for c in out if "cond" in c]
-        k_in = ckey(oracle_cond({"cmp": "Gt", "bits": [74, 72], "const": dwo["ob_input_max"]}, "W"))
-        rep.check(k_in in cs, "R11.2", "R11.2|ob|input_gt_6", "[E73] iff id[2:0] > 6: %s" % k_in, obc,
-                  "OB connector-input condition not found in normal form %s; have %s" % (k_in, [c[:120] for c in cs]))
-        # lane-active test present and negated (error when NOT active)
-        la = [c for c in cs if "ACTIVE" in c]
-        rep.check(len(la) == 1, "R11.2", "R11.2|ob|lane_active", "[E71] iff lane not active", obc, "lane-active conditions: %s" % [c[:100] for c in la])
-    else:
-        rep.missing("R11.2", obc)
-    # polarity of lane-active tests via constant-id folding: IB id 0x20 lane 0, OB id 0x40 lane 0
-    for fn_, idv, code in ((ibc, 0x20, "E72"), (obc, 0x40, "E71")):
+    # the verdict of the IB / OB word checks, decided per identifier (all 256) and per state of the lane's bit in the
+    # IHW active-lanes mask: IB → Err iff the bit of lane id[4:0] is clear; OB → Err iff the bit of lane
+    # 7*id[4:3] + id[2:0] is clear or id[2:0] > 6.  (The verdict, not the way the function collects its messages.)
+    for fn_, barrel in ((ibc, "ib"), (obc, "ob")):
         if fn_ not in f.fns:
+            rep.missing("R11.2", fn_)
             continue
-        word = ("array",) + tuple(Bits.const(0, 8) for _ in range(9)) + (Bits.const(idv, 8),)
-        # evaluate error predicate with ACTIVE symbolic
-        tb = ev.tb(fn_)
-        out = ev.collect_ifs(fn_, [word, Bits.inp("ACTIVE", 0, 32)])
-        cs = [(ckey(c["cond"]), c) for c in out if "cond" in c and "ACTIVE" in ckey(c["cond"])]
-        if len(cs) != 1:
-            rep.bad("R11.2", "R11.2|polarity|%s" % code, "cannot isolate the lane-active condition of %s" % fn_, fn_)
-            continue
-        k, c = cs[0]
-        # which branch carries the error? find the branch containing the error-code literal
-        n_if = None
-        for i, n in tb.walk():
-            if n["k"] == "If":
-                n_if = n
-                break
-        then_has = any(code in (x.get("str") or "") or code in str(x.get("dbg", "")) for _, x in tb.walk(n_if["then"])) or _has_code(f, tb, n_if["then"], code)
-        err_when = k if then_has else ckey(_neg(c["cond"]))
-        exp = ckey(Cond("any", frozenset([("ACTIVE", 0)]), False))
-        rep.check(err_when == exp, "R11.2", "R11.2|polarity|%s" % code, "[%s] is raised exactly when the lane bit is clear" % code, fn_,
-                  "[%s] is raised when %s (expected %s)" % (code, err_when, exp))
+        wrong = []
+        for i in range(256):
+            if (i >> 5) != (1 if barrel == "ib" else 2):
+                continue       # the barrel dispatch (decided above) hands this function only its own identifiers
+            lane = (i & dwo["ib_lane_mask"]) if barrel == "ib" else 7 * ((i >> 3) & 3) + (i & 7)
+            for active in (True, False):
+                mask = 0xFFFFFFFF if active else (0xFFFFFFFF & ~(1 << lane)) if lane < 32 else 0xFFFFFFFF
+                if not active and lane >= 32:
+                    continue
+                want_err = (not active) or (barrel == "ob" and (i & 7) > dwo["ob_input_max"])
+                word = ("array",) + tuple(Bits.const(0, 8) for _ in range(9)) + (Bits.const(i, 8),)
+                ev.strings = True
+                try:
+                    r = vkey(ev.call_fn(fn_, [word, Bits.const(mask, 32)]))
+                except Unsupported as e:
+                    r = "unevaluable %s" % e
+                finally:
+                    ev.strings = False
+                verdict = "Err" if r.startswith("Result::Err(") else ("Ok" if r.startswith("Result::Ok(") else r[:60])
+                if verdict != ("Err" if want_err else "Ok"):
+                    wrong.append((hex(i), "lane bit %s" % ("set" if active else "clear"), verdict))
+        rep.check(not wrong, "R11.2", "R11.2|%s|verdict" % barrel,
+                  "%s data word check: error exactly when the lane's active bit is clear%s (its 32 identifiers × 2)" % (barrel.upper(), " or the connector input is above 6" if barrel == "ob" else ""), fn_,
+                  "%s data word check gives the wrong verdict for %s" % (barrel.upper(), wrong[:6]))
     # barrel dispatch
     pdw = "fastpasta::analyze::validators::its::cdp_running::CdpRunningValidator::<T, C>::preprocess_data_word"
     if pdw in f.fns:
